@@ -305,3 +305,94 @@ package banderwagon
 //@ requires validP(p1.inner)
 //@ ensures result == p && validP(p.inner) && gelP(p.inner) == g_smul(fr_to_int(*scalarMont), gelP(old(p1.inner)))
 //@ modifies *p
+
+// ---- batch normalisation (C19)
+
+// The conversion closure of BatchNormalize, run by parallel.Execute on the ranges of a partition (rule R2): for the pairwise
+// distinct element pointers of its range it multiplies X and Y by the prepared inverse and sets Z to one; nothing else changes.
+// The alignment clause is Go typing: two *Element pointers into one object are whole Elements apart.
+//@ func BatchNormalize$1
+//@ props C19 C13
+//@ prelude field batchspec
+//@ option chunked
+//@ let HP = heapFp()
+//@ let DE = row(*dedupedElements)
+//@ let Do = off(*dedupedElements)
+//@ let IV = obj(*invs)
+//@ let Io = off(*invs)
+//@ requires 0 <= start && start <= end && end <= len(*dedupedElements) && end <= len(*invs)
+//@ requires forall k int :: start <= k && k < end ==> pobj(DE, Do, k) >= 1 && allocated(pobj(DE, Do, k)) && pobj(DE, Do, k) != IV && poff(DE, Do, k) >= 0
+//@ requires forall j int, k int :: start <= j && j < k && k < end ==> !(pobj(DE, Do, j) == pobj(DE, Do, k) && poff(DE, Do, j) == poff(DE, Do, k))
+//@ requires forall j int, k int :: start <= j && j < k && k < end && pobj(DE, Do, j) == pobj(DE, Do, k) ==> (poff(DE, Do, j) - poff(DE, Do, k)) % 3 == 0
+//@ ensures forall k int :: start <= k && k < end ==> heapFp()[pobj(DE, Do, k)][poff(DE, Do, k)] == HP[pobj(DE, Do, k)][poff(DE, Do, k)] * HP[IV][Io + k] && heapFp()[pobj(DE, Do, k)][poff(DE, Do, k) + 1] == HP[pobj(DE, Do, k)][poff(DE, Do, k) + 1] * HP[IV][Io + k] && heapFp()[pobj(DE, Do, k)][poff(DE, Do, k) + 2] == fp_one
+//@ ensures forall o int, c int :: allocated(o) && (forall k int :: start <= k && k < end ==> !(o == pobj(DE, Do, k) && poff(DE, Do, k) <= c && c < poff(DE, Do, k) + 3)) ==> heapFp()[o][c] == HP[o][c]
+//@ modifies * in Fp
+//@ loop 0 invariant start <= i && i <= end
+//@ loop 0 invariant row(*dedupedElements) == DE && off(*dedupedElements) == Do && obj(*invs) == IV && off(*invs) == Io
+//@ loop 0 invariant forall k int :: start <= k && k < i ==> heapFp()[pobj(DE, Do, k)][poff(DE, Do, k)] == HP[pobj(DE, Do, k)][poff(DE, Do, k)] * HP[IV][Io + k] && heapFp()[pobj(DE, Do, k)][poff(DE, Do, k) + 1] == HP[pobj(DE, Do, k)][poff(DE, Do, k) + 1] * HP[IV][Io + k] && heapFp()[pobj(DE, Do, k)][poff(DE, Do, k) + 2] == fp_one
+//@ loop 0 invariant forall o int, c int :: allocated(o) && (forall k int :: start <= k && k < i ==> !(o == pobj(DE, Do, k) && poff(DE, Do, k) <= c && c < poff(DE, Do, k) + 3)) ==> heapFp()[o][c] == HP[o][c]
+//@ at loopbody 0: ghost Hb := heapFp()
+//@ at loopbody 0: assert@cur Hb[pobj(DE, Do, i)][poff(DE, Do, i)] == HP[pobj(DE, Do, i)][poff(DE, Do, i)] && Hb[pobj(DE, Do, i)][poff(DE, Do, i) + 1] == HP[pobj(DE, Do, i)][poff(DE, Do, i) + 1] && Hb[IV][Io + i] == HP[IV][Io + i]
+//@ at store 0: assert@others forall k int :: start <= k && k < i ==> heapFp()[pobj(DE, Do, k)][poff(DE, Do, k)] == Hb[pobj(DE, Do, k)][poff(DE, Do, k)] && heapFp()[pobj(DE, Do, k)][poff(DE, Do, k) + 1] == Hb[pobj(DE, Do, k)][poff(DE, Do, k) + 1] && heapFp()[pobj(DE, Do, k)][poff(DE, Do, k) + 2] == Hb[pobj(DE, Do, k)][poff(DE, Do, k) + 2]
+//@ at store 0: assert@celli heapFp()[pobj(DE, Do, i)][poff(DE, Do, i)] == HP[pobj(DE, Do, i)][poff(DE, Do, i)] * HP[IV][Io + i] && heapFp()[pobj(DE, Do, i)][poff(DE, Do, i) + 1] == HP[pobj(DE, Do, i)][poff(DE, Do, i) + 1] * HP[IV][Io + i] && heapFp()[pobj(DE, Do, i)][poff(DE, Do, i) + 2] == fp_one
+
+// BatchNormalize. The pointer set is a Go map (map model, rule R3: ghost key set / size / not-yet-visited set); src and idx are
+// ghost witness functions: src maps a key to a position of elements holding it, idx maps a visited key to its position in
+// dedupedElements. The forward loop builds invs[k] = Z_0...Z_{k-1} (zprod), the backward loop turns it into 1/Z_k, the closure
+// (rule R2) multiplies. Error exactly when some Z is zero, and then no pre-existing point cell has changed.
+//@ func BatchNormalize
+//@ props C19 C13
+//@ prelude field fieldlemmas batchspec ptrset bnorm
+//@ option mapmodel
+//@ ghost var $mset PSet pset_empty
+//@ ghost var $msize Int 0
+//@ ghost var $mrem PSet pset_empty
+//@ ghost var $mcnt Int 0
+//@ ghost var src PIdx pidx_zero
+//@ ghost var idx PIdx pidx_zero
+//@ let HP = heapFp()
+//@ let EL = row(elements)
+//@ let Eo = off(elements)
+//@ let HI = heapInt()
+//@ requires forall k int :: 0 <= k && k < len(elements) ==> pobj(EL, Eo, k) >= 1 && allocated(pobj(EL, Eo, k)) && poff(EL, Eo, k) >= 0
+//@ requires forall j int, k int :: 0 <= j && j < len(elements) && 0 <= k && k < len(elements) && pobj(EL, Eo, j) == pobj(EL, Eo, k) ==> (poff(EL, Eo, j) - poff(EL, Eo, k)) % 3 == 0
+//@ ensures @C19 err != nil <==> (exists k int :: 0 <= k && k < len(elements) && HP[pobj(EL, Eo, k)][poff(EL, Eo, k) + 2] == fp_zero)
+//@ ensures @C19 err != nil ==> (forall o int, c int :: allocated(o) ==> heapFp()[o][c] == HP[o][c])
+//@ ensures @C19 err == nil ==> (forall k int :: 0 <= k && k < len(elements) ==> heapFp()[pobj(EL, Eo, k)][poff(EL, Eo, k)] == HP[pobj(EL, Eo, k)][poff(EL, Eo, k)] * fp_inv(HP[pobj(EL, Eo, k)][poff(EL, Eo, k) + 2]) && heapFp()[pobj(EL, Eo, k)][poff(EL, Eo, k) + 1] == HP[pobj(EL, Eo, k)][poff(EL, Eo, k) + 1] * fp_inv(HP[pobj(EL, Eo, k)][poff(EL, Eo, k) + 2]) && heapFp()[pobj(EL, Eo, k)][poff(EL, Eo, k) + 2] == fp_one)
+//@ ensures err == nil ==> (forall o int, c int :: allocated(o) && (forall k int :: 0 <= k && k < len(elements) ==> !(o == pobj(EL, Eo, k) && poff(EL, Eo, k) <= c && c < poff(EL, Eo, k) + 3)) ==> heapFp()[o][c] == HP[o][c])
+//@ modifies * in Fp
+//@ macro MSETOK() = (forall o int, c int :: pin($mset, o, c) ==> 0 <= pidx(src, o, c) && pidx(src, o, c) < len(elements) && pobj(EL, Eo, pidx(src, o, c)) == o && poff(EL, Eo, pidx(src, o, c)) == c)
+// loop 0: collect the pointers into the map
+//@ loop 0 invariant -1 <= rangeindex && rangeindex < len(elements) && 0 <= $msize && $msize <= rangeindex + 1
+//@ loop 0 invariant forall k int :: 0 <= k && k <= rangeindex ==> pin($mset, pobj(EL, Eo, k), poff(EL, Eo, k))
+//@ loop 0 invariant MSETOK()
+//@ at loopbody 0: set src := pidx_set(src, pobj(EL, Eo, rangeindex + 1), poff(EL, Eo, rangeindex + 1), rangeindex + 1)
+// loop 1: one slice entry per key (the appends may write in place into the slice made before the loop: all Int cells are
+// declared modified and what is needed about them is restated)
+//@ loop 1 modifies * in Int
+//@ loop 1 keeps src $mset $msize
+//@ at store 0: ghost MK := obj(dedupedElements)
+//@ loop 1 invariant row(elements) == EL && 0 <= $mcnt && len(dedupedElements) + $mcnt == $msize && (obj(dedupedElements) == MK || sinceloop(dedupedElements)) && off(dedupedElements) == 0
+//@ loop 1 invariant forall o int, c int :: allocated(o) ==> heapInt()[o][c] == HI[o][c]
+//@ loop 1 invariant forall o int, c int :: pin($mrem, o, c) ==> pin($mset, o, c)
+//@ loop 1 invariant forall o int, c int :: pin($mset, o, c) && !pin($mrem, o, c) ==> 0 <= pidx(idx, o, c) && pidx(idx, o, c) < len(dedupedElements) && pobj(row(dedupedElements), off(dedupedElements), pidx(idx, o, c)) == o && poff(row(dedupedElements), off(dedupedElements), pidx(idx, o, c)) == c
+//@ loop 1 invariant forall j int :: 0 <= j && j < len(dedupedElements) ==> pin($mset, pobj(row(dedupedElements), off(dedupedElements), j), poff(row(dedupedElements), off(dedupedElements), j)) && !pin($mrem, pobj(row(dedupedElements), off(dedupedElements), j), poff(row(dedupedElements), off(dedupedElements), j)) && pidx(idx, pobj(row(dedupedElements), off(dedupedElements), j), poff(row(dedupedElements), off(dedupedElements), j)) == j
+//@ at store 2: set idx := pidx_set(idx, obj(e), off(e), len(dedupedElements) - 1)
+//@ at store 3: ghost DR := row(dedupedElements)
+//@ at store 3: ghost DO := off(dedupedElements)
+//@ at store 3: ghost N := len(dedupedElements)
+// loop 2: running products; an element with Z == 0 ends the call before anything was written
+//@ loop 2 keeps src idx $mset $msize $mrem $mcnt
+//@ loop 2 invariant 0 <= i && i <= N && len(dedupedElements) == N && row(dedupedElements) == DR && off(dedupedElements) == DO && N <= len(invs) && !allocated(obj(invs)) && off(invs) == 0
+//@ loop 2 invariant forall o int, c int :: allocated(o) ==> heapFp()[o][c] == HP[o][c]
+//@ loop 2 invariant forall k int :: 0 <= k && k < i ==> HP[pobj(DR, DO, k)][poff(DR, DO, k) + 2] != fp_zero
+//@ loop 2 invariant forall k int :: 0 <= k && k < i ==> invs[k] == zprod(HP, DR, DO, k)
+//@ loop 2 invariant accumulator == zprod(HP, DR, DO, i)
+//@ loop 2 invariant forall k int :: 0 <= k && k <= i ==> zprod(HP, DR, DO, k) != fp_zero
+// loop 3: from the inverse of the whole product back to the single inverses
+//@ loop 3 keeps src idx $mset $msize $mrem $mcnt
+//@ loop 3 invariant -1 <= i && i < N && len(dedupedElements) == N && row(dedupedElements) == DR && off(dedupedElements) == DO && N <= len(invs) && !allocated(obj(invs)) && off(invs) == 0
+//@ loop 3 invariant forall o int, c int :: allocated(o) ==> heapFp()[o][c] == HP[o][c]
+//@ loop 3 invariant accInverse == fp_inv(zprod(HP, DR, DO, i + 1))
+//@ loop 3 invariant forall k int :: i < k && k < N ==> invs[k] == fp_inv(HP[pobj(DR, DO, k)][poff(DR, DO, k) + 2])
+//@ loop 3 invariant forall k int :: 0 <= k && k <= i ==> invs[k] == zprod(HP, DR, DO, k)
